@@ -44,3 +44,5 @@ def run(rep, tier):
             rep.add(Finding(rule, f'{rel}:transform', '', msg, f'{rel}:transform/_transform',
                             {'function': ast.unparse(fns['_transform'])}))
     rep.floor('transform implementations analysed', rep.instances.get('transform implementations analysed', 0), 3)
+    from .. import controls
+    controls.walker_controls(rep)
